@@ -27,3 +27,8 @@ def describe(v, tier):
                      "features carry only sample identity; the metric is an arbitrary table W"]
     v.outside = ["n > 5", "weights >= FLOAT_MAX, NaN, inf", "asymmetric weights"]
     v.stubs = ["numpy -> symx.symnp", "numba.njit -> identity", "opfython.utils.logging.get_logger -> null logger", "time (real)"]
+
+
+def conformance(v, tier, seed):
+    from . import conform
+    return conform.gate(v, [("sup", "log_squared_euclidean"), ("sup", "euclidean"), ("sup", "canberra"), ("sup", "manhattan")])
